@@ -245,8 +245,33 @@ func interleave18u(a, b *c18Case, rounds int) string {
 	ac := *a
 	ac.Dims = []int{3}
 	var first, last []float64
+	// independence ACROSS calls: quartile of the last element of a's tensor against quartile of the first element of the
+	// tensor b draws right after it (4 x 4 contingency table, 9 degrees of freedom) - any dependence, not only a linear one
+	quart := func(cs *c18Case, v float64) int {
+		q1, q2 := cs.P1.Eval(nil, 1).V, cs.P2.Eval(nil, 1).V
+		var u float64
+		if cs.Dist == "uniform" {
+			u = (v - q1) / (q2 - q1)
+		} else {
+			u = 0.5 * (1 + math.Erf((v-q1)/(q2*math.Sqrt2)))
+		}
+		k := int(math.Floor(4 * u))
+		if k < 0 {
+			k = 0
+		}
+		if k > 3 {
+			k = 3
+		}
+		return k
+	}
+	var table [4][4]float64
 	for r := 0; r < rounds; r++ {
-		if _, err := ac.draw(); err != nil {
+		ta, err := ac.draw()
+		if err != nil {
+			return ""
+		}
+		_, aflat, err := bind.Read(ta)
+		if err != nil || len(aflat) == 0 {
 			return ""
 		}
 		t, err := b.draw()
@@ -259,6 +284,30 @@ func interleave18u(a, b *c18Case, rounds int) string {
 		}
 		first = append(first, flat[0])
 		last = append(last, flat[len(flat)-1])
+		table[quart(&ac, aflat[len(aflat)-1])][quart(b, flat[0])]++
+	}
+	{
+		var row, col [4]float64
+		n := 0.0
+		for i := range table {
+			for j := range table[i] {
+				row[i] += table[i][j]
+				col[j] += table[i][j]
+				n += table[i][j]
+			}
+		}
+		chi2, dof := 0.0, 9.0
+		for i := range table {
+			for j := range table[i] {
+				e := row[i] * col[j] / n
+				if e > 0 {
+					chi2 += (table[i][j] - e) * (table[i][j] - e) / e
+				}
+			}
+		}
+		if chi2 > dof+8*math.Sqrt(2*dof) {
+			return fmt.Sprintf("the first element of a tensor depends on the last element of the tensor drawn by the previous call: chi-square %.1f on 9 degrees of freedom over %d pairs of calls (8-sigma bound %.1f); table %v", chi2, rounds, dof+8*math.Sqrt(2*dof), table)
+		}
 	}
 	for name, xs := range map[string][]float64{"first": first, "last": last} {
 		N := float64(len(xs))
